@@ -679,7 +679,10 @@ fn encode_genotype_str(genotype: &str) -> io::Result<Vec<i8>> {
         };
         let is_phased = phasing == "|";
 
-        let mut i = (j + 1) << 1;
+        let mut i = j
+            .checked_add(1)
+            .and_then(|n| n.checked_mul(2))
+            .ok_or_else(|| io::Error::new(io::ErrorKind::InvalidInput, "invalid allele index"))?;
 
         if is_phased {
             i |= 0x01;
@@ -713,7 +716,10 @@ fn encode_genotype(genotype: &dyn Genotype) -> io::Result<Vec<i8>> {
             -1
         };
 
-        let mut n = (i + 1) << 1;
+        let mut n = i
+            .checked_add(1)
+            .and_then(|n| n.checked_mul(2))
+            .ok_or_else(|| io::Error::new(io::ErrorKind::InvalidInput, "invalid allele index"))?;
 
         if phasing == Phasing::Phased {
             n |= 0x01;
